@@ -390,6 +390,42 @@ def rule_R6(src):
             return src, n
 
 
+def rule_R5d(src):
+    """for &Name { f1: v1, f2: _, .. } in E {  ->  for vx_pN in E { let v1 = vx_pN.f1; ...   (fields are copied, as the `&Struct {..}` pattern does)"""
+    mask = rl.code_mask(src)
+    out, pos, n = [], 0, 0
+    rx = re.compile(r'\bfor\s+&\s*([A-Za-z_][A-Za-z0-9_]*)\s*\{([^{}]*)\}\s*in\s+([^{}]+?)\s*\{')
+    for m in rl.find_code(src, rx, mask=mask):
+        if m.start() < pos:
+            continue
+        n += 1
+        tmp = 'vx_p%d' % n
+        binds = []
+        ok = True
+        for f in _split_top(m.group(2)):
+            f = f.strip()
+            if not f or f == '..':
+                continue
+            if ':' in f:
+                fld, var = [t.strip() for t in f.split(':', 1)]
+            else:
+                fld = var = f
+            if not re.fullmatch(r'[A-Za-z_][A-Za-z0-9_]*', var) or not re.fullmatch(r'[A-Za-z_][A-Za-z0-9_]*', fld):
+                ok = False
+                break
+            if var != '_':
+                binds.append('let %s = %s.%s;' % (var, tmp, fld))
+        if not ok:
+            n -= 1
+            continue
+        new = 'for %s in %s { %s' % (tmp, m.group(3).strip(), ' '.join(binds))
+        out.append(src[pos:m.start()])
+        out.append(_pad(new, src[m.start():m.end()]))
+        pos = m.end()
+    out.append(src[pos:])
+    return ''.join(out), n
+
+
 def rule_R11(src):
     """(lo..hi).map(|p| E).collect()  ->  { let mut vx_out = Vec::new(); for p in lo..hi { vx_out.push(E); } vx_out }
     (std iterators are evaluated in order by collect; the closure is a single expression)"""
@@ -480,6 +516,7 @@ GLOBAL_RULES = [
     ('R1b', 'const_assert!(..) removed (evaluated by rustc at compile time)', _regex_rule(r'\bconst_assert!\([^;]*\);', '')),
     ('R5a', 'array pattern `let [a,b,..] = e;` -> indexed lets', rule_R5a),
     ('R5b', 'destructuring assignment `(a, b) = e;` -> temporary + field assignments', rule_R5b),
+    ('R5d', 'struct pattern in a for header `for &S { f: v, .. } in e` -> loop variable + field lets', rule_R5d),
     ('R11', '(a..b).map(|i| E).collect() -> push loop', rule_R11),
     ('R11b', 'v.iter().map(|x| BODY).collect() / .collect_vec() -> push loop', rule_R11b),
     ('R11d', 'consumer.many((a..b).map(|i| E)) -> for i in a..b { consumer.one(E) }', rule_R11d),
